@@ -197,6 +197,7 @@ func runCheck(def *CheckDef, tier string, seed int64, repo string, workers int, 
 	close(next)
 	var mu sync.Mutex
 	done := 0
+	violJobs, skipped := 0, 0
 	var sampled []smt.SampledQuery
 	for w := 0; w < workers; w++ {
 		wg.Add(1)
@@ -217,7 +218,22 @@ func runCheck(def *CheckDef, tier string, seed int64, repo string, workers int, 
 				mu.Unlock()
 			}()
 			for i := range next {
+				// once several jobs have produced counterexamples the verdict of the check is settled: the remaining
+				// jobs are skipped (they are listed as not run; this only happens on a tree that violates the property)
+				mu.Lock()
+				stop := violJobs >= 6
+				mu.Unlock()
+				if stop {
+					results[i] = &sym.JobResult{Job: jobs[i], PathsByEnd: map[string]int{"skipped-after-violations": 1}, Covers: map[string]int{}, Asserts: map[string]int{}, Funcs: map[string]int{}}
+					skipped++
+					continue
+				}
 				results[i] = eng.RunJob(jobs[i], sol, sym.RunOpts{OpenKnown: open, Seed: seed, SampleEvery: 3, JobBudget: jobBudget})
+				if len(results[i].Violations) > 0 {
+					mu.Lock()
+					violJobs++
+					mu.Unlock()
+				}
 				mu.Lock()
 				done++
 				if os.Getenv("VERIF_VERBOSE") != "" {
@@ -254,8 +270,11 @@ func runCheck(def *CheckDef, tier string, seed int64, repo string, workers int, 
 			covers[k] += v
 		}
 	}
+	if skipped > 0 {
+		fmt.Printf("  %d jobs skipped after %d jobs had produced counterexamples\n", skipped, violJobs)
+	}
 	for _, c := range def.MinCovers {
-		if covers[c] == 0 && only == "" {
+		if covers[c] == 0 && only == "" && skipped == 0 {
 			inconcl = append(inconcl, "vacuity: cover label never reached: "+c)
 		}
 	}
